@@ -240,7 +240,7 @@ def parse_diag(out):
     res = {}
     for m in re.finditer(r"\[([^\[\]]*)\]", out):
         nums = [int(x) for x in re.findall(r"(\d+)%N", m.group(1))]
-        if nums and 7001 <= nums[0] <= 7005:
+        if nums and 7001 <= nums[0] <= 7007:
             res[nums[0]] = nums[1:]
     return res
 
@@ -303,7 +303,14 @@ def run(ck, tier, rng):
         else:
             ck.violation("attr-read-unreplayed:" + r["sig"], "read obligation of %s fails in Coq but no unreadable value was found" % r["sig"],
                          {"theorem_or_correspondence": "C11_no_read_failures", "row": r["sig"]}, concrete=False)
-    for rid in diag.get(7001, []):
+    # custom (float / unit valued) classes lifted to rows by proofs/C11_rows_custom.v
+    rc2, dout2 = _run(["timeout", "600", "coqc", "-Q", ".", "V", "diag/Diag_C11b.v"], cwd=COQ)
+    if rc2 == 0:
+        diag.update(parse_diag(dout2))
+    else:
+        ck.notes.append("diagnostics (custom rows) did not compile: " + dout2[-300:])
+    custom_ok = set(diag.get(7006, []))
+    for rid in diag.get(7001, []) + diag.get(7007, []):
         r = rows[rid]
         st = st_class(r["st"])
         bad = None
@@ -318,7 +325,7 @@ def run(ck, tier, rng):
                 {"entry_point": r["st"] + ".to_xml", "input": repr(bad[0]), "impl_outcome": bad[1], "xsd_type": r["type"]})
         else:
             ck.violation("attr-write-unreplayed:" + r["sig"], "write obligation of %s fails in Coq but no ill-written value was found" % r["sig"],
-                         {"theorem_or_correspondence": "C11_no_write_failures", "row": r["sig"]}, concrete=False)
+                         {"theorem_or_correspondence": "C11_no_write_failures / C11_no_custom_write_failures", "row": r["sig"]}, concrete=False)
     for u in meta["unmodelled"]:
         ck.violation("unmodelled:" + u[:100], "translator met a construct outside the model: " + u,
                      {"theorem_or_correspondence": "C11_no_unmodelled", "construct": u}, concrete=False)
@@ -412,9 +419,10 @@ def run(ck, tier, rng):
     return ck.finish(
         rule="every simple-type class x (generic python values of every type + its boundary values +-1 + floats adjacent to each rounding threshold of its unit conversion) for to_xml, and x %d lexical forms for from_xml; per attribute row the oracle checks W/Rej/RT on the grid and R on schema-valid examples; non-trivial = value is not an arbitrary foreign object" % len(READ_FORMS),
         trusted_base=TB, assumptions=ASSUME,
-        extra={"attribute_rows": len(rows), "write_judged_by_theorem": len(rows) - len(diag.get(7003, [])) - len(diag.get(7001, [])),
+        extra={"attribute_rows": len(rows), "write_judged_by_theorem": len(rows) - len([i for i in diag.get(7003, []) if i not in custom_ok]) - len(diag.get(7001, [])),
+               "write_judged_by_class_range_theorem": [rows[i]["sig"] for i in sorted(custom_ok)],
                "read_judged_by_theorem": len(rows) - len(diag.get(7004, [])) - len(diag.get(7002, [])),
-               "write_not_judged": [rows[i]["sig"] for i in diag.get(7003, [])],
+               "write_not_judged": [rows[i]["sig"] for i in diag.get(7003, []) if i not in custom_ok],
                "read_not_judged": [rows[i]["sig"] for i in diag.get(7004, [])],
                "roundtrip_not_covered_by_theorem": [rows[i]["sig"] for i in diag.get(7005, [])],
                "simple_types": len(meta["simple_types"]), "gallina_defs": meta["n_defs"],
